@@ -26,6 +26,7 @@ class Ctx:
         self.assumptions = []
         self.analysed = set()   # functions looked at
         self.configs_used = set()
+        self.deferred = []      # Broken raised inside one rule group: the other groups still run
 
     def facts(self, cfg):
         if cfg not in self._facts:
@@ -37,6 +38,15 @@ class Ctx:
         need = [c for c in cfgs if c not in self._facts]
         if need:
             self._facts.update(load(need))
+
+    def guard(self, fn, *a, **k):
+        """run one rule group; a missing anchor (Broken) in it is remembered and the remaining groups still run, so a
+        violation another group can establish is not hidden behind a CHECK-BROKEN"""
+        try:
+            return fn(*a, **k)
+        except Broken as e:
+            self.deferred.append('%s: %s' % (getattr(fn, '__name__', 'rule group'), e))
+            return None
 
     def ob(self, rule, key, ok, detail, where=None, cfg=None, nontrivial=True, **extra):
         """record one obligation. key must not contain line numbers."""
@@ -74,8 +84,7 @@ def run_check(pid, module, tier, seed, replay=None):
                 raise Broken('rule %s examined %d instances, below the floor %d counted on the reviewed tree '
                              '(anchors moved or the rule went vacuous)' % (rule, counts.get(rule, 0), fl))
     except Broken as e:
-        print('CHECK-BROKEN property=%s: %s' % (pid, e))
-        sys.exit(2)
+        ctx.deferred.append(str(e))
     except Exception:
         traceback.print_exc()
         print('CHECK-BROKEN property=%s: internal error' % pid)
@@ -101,6 +110,13 @@ def run_check(pid, module, tier, seed, replay=None):
                 knowns.append((full, m['bad'][0], kf[(pid, full)]))
             else:
                 violations.append((full, m['bad'][0]))
+    if ctx.deferred and not violations:
+        # nothing else is wrong and part of the check could not be carried out: fail closed, as a broken check
+        for d in ctx.deferred:
+            print('CHECK-BROKEN property=%s: %s' % (pid, d))
+        sys.exit(2)
+    for d in ctx.deferred:
+        print('CHECK-PARTIAL property=%s: a rule group could not be evaluated (%s); the violations below come from the other groups' % (pid, d))
     if replay:
         want = json.load(open(replay)).get('key')
         hit = [v for v in violations if v[0] == want]
